@@ -227,7 +227,10 @@ def latin1_enum_shape():
 
 
 def error_text_shape():
-    decl = "#[derive(Clone, Copy, PartialEq, Debug, derive_more::FromStr)]\npub enum Colour { Red, Green }"
+    decl = ("#[derive(Clone, Copy, PartialEq, Debug, derive_more::FromStr)]\npub enum Colour { Red, Green }\n"
+            "#[derive(Clone, Copy, PartialEq, Debug, derive_more::FromStr)]\npub enum Void {}\n"
+            "#[derive(Clone, Copy, PartialEq, Debug, derive_more::FromStr)]\npub enum Single { Only }\n"
+            "#[derive(Clone, Copy, PartialEq, Debug, derive_more::FromStr)]\npub enum r#Raw { r#Only, only }")
     src = """    #[kani::proof]
     #[kani::unwind(12)]
     #[kani::stub(str::to_lowercase, ascii_to_lowercase)]
@@ -236,11 +239,19 @@ def error_text_shape():
         let f = Colour::from_str("reds").unwrap_err();
         assert!(e == f);
         let e: derive_more::FromStrError = e;
+        // ... and it names the enum - also for an enum without variants, with one variant, and with a raw-identifier name
+        assert!(e == derive_more::FromStrError::new("Colour"), "the error does not name the enum");
+        assert!(Void::from_str("x").err() == Some(derive_more::FromStrError::new("Void")), "enum without variants: every string is rejected with an error naming the enum");
+        assert!(Void::from_str("").err() == Some(derive_more::FromStrError::new("Void")));
+        assert!(Single::from_str("onl").err() == Some(derive_more::FromStrError::new("Single")) && Single::from_str("ONLY") == Ok(Single::Only));
+        // (whether a raw-identifier enum is named `Raw` or `r#Raw` in the error is not fixed by the property: either is accepted)
+        let r = r#Raw::from_str("ONLY").err();
+        assert!((r == Some(derive_more::FromStrError::new("Raw")) || r == Some(derive_more::FromStrError::new("r#Raw"))) && r#Raw::from_str("only") == Ok(r#Raw::only));
         kani::cover!(true, "reach end");
     }
 """
     hs = [Harness("error_is_the_enums_from_str_error", "none (concrete)", covers=1, unwind=12,
-                  asserts="rejections carry derive_more::FromStrError, equal for all rejected strings")]
+                  asserts="rejections carry derive_more::FromStrError naming the enum (also for enums with zero / one variant and raw-identifier names), equal for all rejected strings")]
     return Shape("c13_error_type", module(decl, src), hs, decl.replace("\n", " "), exercises=["src/str.rs::FromStrError"])
 
 
